@@ -110,6 +110,13 @@ Definition oracle_C10 (x : case) : bool :=
       | UvOk n rest => (rl + n =? len rest)
       | _ => false
       end
+  | (CDecode _ buf, CoDec r) | (CDecodeOf _ _ buf, CoDec r) =>
+      (* up to three continuation bytes are the beginning of the length prefix of some frame within the limit (a fourth byte
+         completes a value below 2^28; with three the value can still be anything from 2^21 on): a stream cut there must wait *)
+      match uv_decode buf with
+      | UvInsufficient => if len buf <=? 3 then dres_eqb r DrNeedMore else true
+      | _ => true
+      end
   | _ => true
   end.
 
